@@ -258,7 +258,7 @@ class Ctx:
                 if 'error[' in out or 'could not compile' in out:
                     res['profiles'][prof] = {'reproduced': False, 'compile_error': True, 'tail': out[-1500:]}
                 else:
-                    res['profiles'][prof] = {'reproduced': expect_marker in out, 'tail': '\n'.join(l for l in out.splitlines() if 'VERIF-REPLAY' in l or 'VERIF-OBS' in l or 'panicked' in l or l.startswith('step '))[-6000:]}
+                    res['profiles'][prof] = {'reproduced': expect_marker in out, 'tail': '\n'.join(l for l in out.splitlines() if 'VERIF-REPLAY' in l or 'VERIF-OBS' in l or 'panicked' in l or l.startswith('step '))[-120000:]}
             self.replayed += 1
         finally:
             shutil.rmtree(scratch, ignore_errors=True)
